@@ -682,9 +682,10 @@ func mediaTypeSwitches(p *core.Prog, fn *ssa.Function) (manifests map[string]boo
 }
 
 func c03R5(p *core.Prog, r *core.Report, rule string) {
-	r.Rule(rule, "media-type table agreement: copy, import and export treat the same set of media types as manifests (a type known to one and not to another is copied as an opaque blob or not descended into)", 2)
+	r.Rule(rule, "media-type table agreement: copy, import and export treat the same set of media types as manifests (a type known to one and not to another is copied as an opaque blob or not descended into)", 1)
 	ts := traversals(p)
 	sets := map[string]map[string]bool{}
+	var noSwitch []string
 	for _, n := range []string{"copy", "export", "import"} {
 		fn := ts[n]
 		if fn == nil {
@@ -709,10 +710,72 @@ func c03R5(p *core.Prog, r *core.Report, rule string) {
 			}
 		}
 		if !ok {
-			r.Undecided(rule, p.FuncName(fn), "manifest media types", p.Pos(fn.Pos()), "no switch over a descriptor's MediaType with a manifest-handling case found")
-			return
+			noSwitch = append(noSwitch, n)
+			continue
 		}
 		sets[n] = m
+	}
+	if len(noSwitch) > 0 {
+		// The table of a traversal may be written as predicates (`isManifestType(mt)` over a list) or an
+		// if-chain. Its case sets cannot be read off then; what is still decided is the necessary
+		// half: every manifest media type of the traversals that do have a switch is named in this
+		// traversal (its literals, the package helpers it calls, the package-level lists they use).
+		ref := map[string]bool{}
+		for _, m := range sets {
+			for k := range m {
+				ref[k] = true
+			}
+		}
+		if len(ref) == 0 {
+			r.Undecided(rule, p.FuncName(ts[noSwitch[0]]), "manifest media types", p.Pos(ts[noSwitch[0]].Pos()), "no switch over a descriptor's MediaType with a manifest-handling case found in any traversal")
+			return
+		}
+		for _, n := range noSwitch {
+			fn := ts[n]
+			mentioned := map[string]bool{}
+			collect := func(f *ssa.Function) {
+				for _, b := range f.Blocks {
+					for _, in := range b.Instrs {
+						for _, op := range in.Operands(nil) {
+							if op == nil || *op == nil {
+								continue
+							}
+							if sv, ok := core.ConstString(*op); ok {
+								mentioned[sv] = true
+							}
+							if g, ok := (*op).(*ssa.Global); ok && g.Pkg != nil && g.Pkg.Func("init") != nil && p.InModule(g.Pkg.Func("init")) {
+								for _, ib := range g.Pkg.Func("init").Blocks {
+									for _, iin := range ib.Instrs {
+										for _, iop := range iin.Operands(nil) {
+											if iop != nil && *iop != nil {
+												if sv, ok := core.ConstString(*iop); ok {
+													mentioned[sv] = true
+												}
+											}
+										}
+									}
+								}
+							}
+						}
+					}
+				}
+			}
+			for h := range unitFuncs(fn, 3, nil) {
+				collect(h)
+			}
+			var missing []string
+			for k := range ref {
+				if !mentioned[k] {
+					missing = append(missing, k)
+				}
+			}
+			sort.Strings(missing)
+			r.Check(len(missing) == 0, rule, p.FuncName(fn), "manifest media types agree with copy", p.Pos(fn.Pos()),
+				"the "+n+" traversal has no switch over the media type (predicates or an if-chain); of the manifest media types the other traversals handle, it does not name: "+strings.Join(missing, ", "))
+		}
+		if sets["copy"] == nil {
+			return
+		}
 	}
 	render := func(m map[string]bool) string {
 		var s []string
@@ -723,6 +786,9 @@ func c03R5(p *core.Prog, r *core.Report, rule string) {
 		return strings.Join(s, ",")
 	}
 	for _, n := range []string{"export", "import"} {
+		if sets[n] == nil {
+			continue
+		}
 		diff := []string{}
 		for k := range sets["copy"] {
 			if !sets[n][k] {
